@@ -733,7 +733,7 @@ structure Samples where
 
 /-- `CNOTInvFactory.construct`: the product is read off the source; every constituent call with its argument expressions -/
 noncomputable def construct (F : ℝ → ℝ) (phi_ctr : ℝ) (phi_trg : ℝ) (t_cnot : ℝ) (p_cnot : ℝ) (p_single_ctr : ℝ) (p_single_trg : ℝ) (T1_ctr : ℝ) (T2_ctr : ℝ) (T1_trg : ℝ) (T2_trg : ℝ) (w : Samples) : Matrix (Fin 4) (Fin 4) ℂ :=
-  (((((QG.Spec.kron2 (SingleQubit.construct F ((-Real.pi) / (2 : ℝ)) (((-phi_trg) - (Real.pi / (2 : ℝ))) + (Real.pi / (2 : ℝ))) p_single_trg T1_trg T2_trg w.Ry) (SX.construct F (((-phi_ctr) - Real.pi) - (Real.pi / (2 : ℝ))) p_single_ctr T1_ctr T2_ctr w.first_sx_gate)) * (CR.construct F ((-Real.pi) / (4 : ℝ)) ((-phi_ctr) - Real.pi) (QG.Gen.CNOTInv.t_cr t_cnot) (QG.Gen.CNOTInv.p_cr p_cnot p_single_ctr p_single_trg) T1_trg T2_trg T1_ctr T2_ctr w.first_cr)) * (QG.Spec.kron2 (X.construct F ((-phi_trg) - (Real.pi / (2 : ℝ))) p_single_trg T1_trg T2_trg w.x_gate) (Relaxation.construct QG.Gen.CNOTInv.tg T1_ctr T2_ctr w.relaxation_gate))) * (CR.construct F (Real.pi / (4 : ℝ)) ((-phi_ctr) - Real.pi) (QG.Gen.CNOTInv.t_cr t_cnot) (QG.Gen.CNOTInv.p_cr p_cnot p_single_ctr p_single_trg) T1_trg T2_trg T1_ctr T2_ctr w.second_cr)) * (QG.Spec.kron2 (SX.construct F ((-phi_trg) - (Real.pi / (2 : ℝ))) p_single_ctr T1_ctr T2_ctr w.second_sx_gate) (SingleQubit.construct F (Real.pi / (2 : ℝ)) (((-phi_ctr) - Real.pi) + (Real.pi / (2 : ℝ))) p_single_ctr T1_ctr T2_ctr w.Y_Z)))
+  (((((QG.Spec.kron2 (SingleQubit.construct F ((-Real.pi) / (2 : ℝ)) (((-phi_trg) - (Real.pi / (2 : ℝ))) + (Real.pi / (2 : ℝ))) p_single_trg T1_trg T2_trg w.Ry) (SX.construct F (((-phi_ctr) - Real.pi) - (Real.pi / (2 : ℝ))) p_single_ctr T1_ctr T2_ctr w.first_sx_gate)) * (CR.construct F ((-Real.pi) / (4 : ℝ)) ((-phi_ctr) - Real.pi) (QG.Gen.CNOTInv.t_cr t_cnot) (QG.Gen.CNOTInv.p_cr p_cnot p_single_ctr p_single_trg) T1_trg T2_trg T1_ctr T2_ctr w.first_cr)) * (QG.Spec.kron2 (X.construct F ((-phi_trg) - (Real.pi / (2 : ℝ))) p_single_trg T1_trg T2_trg w.x_gate) (Relaxation.construct QG.Gen.CNOTInv.tg T1_ctr T2_ctr w.relaxation_gate))) * (CR.construct F (Real.pi / (4 : ℝ)) ((-phi_ctr) - Real.pi) (QG.Gen.CNOTInv.t_cr t_cnot) (QG.Gen.CNOTInv.p_cr p_cnot p_single_ctr p_single_trg) T1_trg T2_trg T1_ctr T2_ctr w.second_cr)) * (QG.Spec.kron2 (SX.construct F ((-phi_trg) - (Real.pi / (2 : ℝ))) p_single_trg T1_trg T2_trg w.second_sx_gate) (SingleQubit.construct F (Real.pi / (2 : ℝ)) (((-phi_ctr) - Real.pi) + (Real.pi / (2 : ℝ))) p_single_ctr T1_ctr T2_ctr w.Y_Z)))
 
 attribute [qg_unfold] tg t_cr p_cr construct
 
